@@ -370,3 +370,170 @@ func H08e_multi_filter() {
 	vrtAssert("C08.connection_stays_open", !s.isClosed())
 	vrtReach("C08.multi_filter")
 }
+
+// H08f_retained_same_id: a new subscription matches two retained messages whose stored copies carry the
+// packet identifiers and DUP flags their publishers chose (solver variables: the identifiers may
+// coincide with each other and with a live delivery the subscriber has not acknowledged). Every
+// matching retained message must arrive, once, with its own payload and the retain flag set (round-7
+// change C08-14: the outgoing queue's refusal of a second entry with an identifier still in flight
+// ended the retained loop early).
+func H08f_retained_same_id() {
+	b := vrtBroker("mockSuccess")
+	p, _ := b.connect(vrtConnectPkt([]byte("p"), true))
+	s, _ := b.connect(vrtConnectPkt([]byte("s"), true))
+	x0, x1, x2 := vrtUint16("id_live"), vrtUint16("id_r1"), vrtUint16("id_r2")
+	vrtAssume(vrtAnd(x0 != 0, vrtAnd(x1 != 0, x2 != 0)))
+	d1, d2 := vrtB2b(vrtBool("dup_r1"), 8), vrtB2b(vrtBool("dup_r2"), 8)
+	vrtExchange(p, &specPkt{Typ: specPUBLISH, Flags: 2 | 1 | d1, ID: x1, Topic: []byte("r/1"), Payload: []byte("one")})
+	vrtExchange(p, &specPkt{Typ: specPUBLISH, Flags: 2 | 1 | d2, ID: x2, Topic: []byte("r/2"), Payload: []byte("two")})
+	withLive := vrtBool("live_delivery_in_flight")
+	if withLive {
+		vrtExchange(s, &specPkt{Typ: specSUBSCRIBE, ID: 1, Topics: [][]byte{[]byte("t")}, QoS: []byte{1}})
+		vrtExchange(p, &specPkt{Typ: specPUBLISH, Flags: 2, ID: x0, Topic: []byte("t"), Payload: []byte("live")})
+		got, ok := vrtParse(s.peerTake())
+		vrtAssert("C08.harness_live_delivery", ok && len(got) == 1 && got[0].Typ == specPUBLISH)
+	}
+	filters := [][]byte{[]byte("r/+")}
+	qos := []byte{1}
+	if vrtBool("two_filters") {
+		filters = [][]byte{[]byte("r/1"), []byte("r/2")}
+		qos = []byte{1, 1}
+	}
+	got, ok := vrtParse(vrtExchange(s, &specPkt{Typ: specSUBSCRIBE, ID: 2, Topics: filters, QoS: qos}))
+	vrtAssert("C08.stream_wellformed", ok)
+	n1, n2, acks := 0, 0, 0
+	for _, g := range got {
+		if g.Typ == specSUBACK {
+			acks++
+			continue
+		}
+		vrtAssert("C08.only_publishes_besides_the_suback", g.Typ == specPUBLISH)
+		vrtAssert("C08.retain_flag_set_on_subscribe", g.Flags&1 == 1)
+		vrtAssert("C08.retained_qos_downgraded", (g.Flags>>1)&3 == 1)
+		if vrtBytesEq(g.Topic, []byte("r/1")) {
+			n1++
+			vrtAssert("C08.retained_payload", vrtBytesEq(g.Payload, []byte("one")))
+		}
+		if vrtBytesEq(g.Topic, []byte("r/2")) {
+			n2++
+			vrtAssert("C08.retained_payload", vrtBytesEq(g.Payload, []byte("two")))
+		}
+	}
+	vrtAssert("C08.suback_sent", acks == 1)
+	vrtAssert("C08.every_matching_retained_message_once", n1 == 1 && n2 == 1)
+	vrtReach("C08.retained_same_id")
+}
+
+// H08s_boundary_retained: a retained message stored at QoS 1 / 2 whose remaining length is 127..131 is
+// delivered to a new subscription granted a LOWER QoS: the copy that is downgraded loses its packet
+// identifier, so its remaining length drops by two - across the point where the length field itself
+// shrinks from two bytes to one. Topic and every payload byte arrive, the packet has the size its header
+// announces, the retain flag is set (round-8 change C08-15: a downgrade helper that copied topic and
+// payload at the SOURCE packet's header length). The second subscription (same filter, higher grant)
+// gets the stored QoS again: the stored copy is not touched.
+func H08s_boundary_retained() {
+	b := vrtBroker("mockSuccess")
+	p, _ := b.connect(vrtConnectPkt([]byte("p"), true))
+	targets := []int{127, 128, 129, 130, 131}
+	R := targets[vrtChoice("stored_remaining_length", len(targets))]
+	sq := 1 + byte(vrtChoice("stored_qos", 2))
+	payload := make([]byte, R-2-3-2) // 2 + len("r/x") + 2 (identifier) + payload
+	for i := range payload {
+		payload[i] = byte('a' + i%23)
+	}
+	payload[0], payload[len(payload)-1] = vrtByte("first"), vrtByte("last")
+	want := append([]byte(nil), payload...)
+	if sq == 1 {
+		vrtExchange(p, &specPkt{Typ: specPUBLISH, Flags: 2 | 1, ID: 9, Topic: []byte("r/x"), Payload: payload})
+	} else {
+		vrtExchange(p, &specPkt{Typ: specPUBLISH, Flags: 4 | 1, ID: 9, Topic: []byte("r/x"), Payload: payload}, &specPkt{Typ: specPUBREL, Flags: 2, ID: 9})
+	}
+	gq := byte(vrtChoice("granted", int(sq))) // lower than the stored QoS
+	viaAPI := vrtBool("inprocess_subscriber")
+	if viaAPI {
+		in := vrtNewInproc()
+		vrtAssert("C08.inprocess_subscribe_ok", b.svr.Subscribe("r/+", gq, &in.fn) == nil)
+		got := in.take()
+		vrtAssert("C08.boundary_retained_delivered_once", len(got) == 1)
+		if len(got) == 1 {
+			vrtAssert("C08.boundary_retained_bytes", vrtAnd(vrtBytesEq(got[0].Topic, []byte("r/x")), vrtBytesEq(got[0].Payload, want)))
+			vrtAssert("C08.retained_qos_downgraded", (got[0].Flags>>1)&3 == gq)
+		}
+	} else {
+		s, _ := b.connect(vrtConnectPkt([]byte("s"), true))
+		raw := vrtExchange(s, &specPkt{Typ: specSUBSCRIBE, ID: 1, Topics: [][]byte{[]byte("r/+")}, QoS: []byte{gq}})
+		got, ok := vrtParse(raw)
+		vrtAssert("C08.stream_wellformed", ok)
+		vrtAssert("C08.boundary_retained_delivered_once", ok && len(got) == 2 && got[0].Typ == specSUBACK && got[1].Typ == specPUBLISH)
+		if ok && len(got) == 2 {
+			vrtAssert("C08.boundary_retained_bytes", vrtAnd(vrtBytesEq(got[1].Topic, []byte("r/x")), vrtBytesEq(got[1].Payload, want)))
+			vrtAssert("C08.retained_qos_downgraded", (got[1].Flags>>1)&3 == gq)
+			vrtAssert("C08.retain_flag_set_on_subscribe", got[1].Flags&1 == 1)
+		}
+	}
+	// a later subscription with a grant at least as high as the stored QoS gets the stored QoS: the stored copy is intact
+	s2, _ := b.connect(vrtConnectPkt([]byte("s2"), true))
+	got2, ok2 := vrtParse(vrtExchange(s2, &specPkt{Typ: specSUBSCRIBE, ID: 1, Topics: [][]byte{[]byte("r/x")}, QoS: []byte{2}}))
+	vrtAssert("C08.boundary_retained_delivered_once", ok2 && len(got2) == 2 && got2[1].Typ == specPUBLISH)
+	if ok2 && len(got2) == 2 {
+		vrtAssert("C08.stored_copy_intact", vrtAnd((got2[1].Flags>>1)&3 == sq, vrtBytesEq(got2[1].Payload, want)))
+	}
+	vrtReach("C08.boundary_retained")
+}
+
+// H08m_many_retained: one SUBSCRIBE with two or three filters that match 9..12 retained messages in total,
+// stored at QoS 0..2 (so some are above the grant and must be downgraded, some not): every matching
+// message arrives once per matching filter, in the QoS min(stored, granted), with its own payload and the
+// retain flag (round-8 change C08-16: a working list that is re-sliced per filter loses the downgraded
+// copies of the early filters when a later filter makes it grow past its capacity).
+func H08m_many_retained() {
+	b := vrtBroker("mockSuccess")
+	p, _ := b.connect(vrtConnectPkt([]byte("p"), true))
+	n := 9 + vrtChoice("retained_messages", 4)
+	for i := 0; i < n; i++ {
+		q := byte(i % 3)
+		top := []byte{'a' + byte(i%2), '/', 'k', 'a' + byte(i)}
+		pk := &specPkt{Typ: specPUBLISH, Flags: q<<1 | 1, ID: uint16(20 + i), Topic: top, Payload: []byte{'p', 'a' + byte(i)}}
+		if q == 2 {
+			vrtExchange(p, pk, &specPkt{Typ: specPUBREL, Flags: 2, ID: uint16(20 + i)})
+		} else {
+			vrtExchange(p, pk)
+		}
+	}
+	g0, g1 := vrtByte("granted_a"), vrtByte("granted_b")
+	vrtAssume(vrtAnd(g0 <= 2, g1 <= 2))
+	g0, g1 = vrtConcretizeByte(g0), vrtConcretizeByte(g1)
+	filters := [][]byte{[]byte("a/+"), []byte("b/+")}
+	qos := []byte{g0, g1}
+	if vrtBool("third_filter") {
+		filters = append(filters, []byte("a/ka"))
+		qos = append(qos, 2)
+	}
+	s, _ := b.connect(vrtConnectPkt([]byte("s"), true))
+	got, ok := vrtParse(vrtExchange(s, &specPkt{Typ: specSUBSCRIBE, ID: 1, Topics: filters, QoS: qos}))
+	vrtAssert("C08.stream_wellformed", ok && len(got) >= 1 && got[0].Typ == specSUBACK)
+	if !ok {
+		return
+	}
+	for i := 0; i < n; i++ {
+		top := []byte{'a' + byte(i%2), '/', 'k', 'a' + byte(i)}
+		stored := byte(i % 3)
+		grant := qos[i%2]
+		// ("a/ka", the message of i == 0, is stored at QoS 0: its second copy for the third filter is QoS 0 as well)
+		want, seen := 1, 0
+		if i == 0 && len(filters) == 3 {
+			want = 2
+		}
+		for _, g := range got[1:] {
+			if g.Typ == specPUBLISH && vrtBytesEq(g.Topic, top) {
+				vrtAssert("C08.retained_payload", vrtBytesEq(g.Payload, []byte{'p', 'a' + byte(i)}))
+				vrtAssert("C08.retain_flag_set_on_subscribe", g.Flags&1 == 1)
+				vrtAssert("C08.retained_qos_downgraded", (g.Flags>>1)&3 == specMinQos(stored, grant))
+				seen++
+			}
+		}
+		vrtAssert("C08.every_matching_retained_message_once", seen == want)
+	}
+	vrtAssert("C08.nothing_else_delivered", len(got)-1 == n+len(filters)-2)
+	vrtReach("C08.many_retained")
+}
